@@ -393,7 +393,17 @@ class Parser:
         Consume the current token as an rvalue, generating the code to evaluate
         it and to move the result into dest.
         """
-        code_gen = code_gen or self._code_gen
+        if code_gen is not None and code_gen is not self._code_gen:
+            # Everything the value compiles to (an expression in braces, a
+            # call in brackets) goes where the caller asked, not only the
+            # final move.
+            saved = self._code_gen
+            self._code_gen = code_gen
+            try:
+                return self._rvalue(dest)
+            finally:
+                self._code_gen = saved
+        code_gen = self._code_gen
         if self._current_token.is_mark('{'):
             return self.next_token() and self._rvalue_curly(dest, code_gen)
         if self._current_token.is_mark('['):
